@@ -38,12 +38,49 @@ impl TraceWriter {
         }
     }
     pub fn emit(&mut self, v: &Value) {
+        if v["ev"] == "reset" {
+            // every finished scenario is on disk before the next one starts (a watchdog may end the process, see `Watchdog`)
+            self.out.flush().expect("flush trace");
+        }
         serde_json::to_writer(&mut self.out, v).expect("write trace");
         self.out.write_all(b"\n").expect("write trace");
         self.lines += 1;
     }
     pub fn flush(&mut self) {
         self.out.flush().expect("flush trace");
+    }
+}
+
+/// index of the scenario being executed (for the watchdog's report)
+pub static CURRENT_SCENARIO: std::sync::atomic::AtomicUsize = std::sync::atomic::AtomicUsize::new(0);
+
+/// A hang of the code under test is data, not a tool failure: while armed, a watchdog thread ends the process with exit code 3
+/// after `secs` seconds, reporting on stdout which scenario hung and where. The traces of the scenarios finished before are on
+/// disk (see `TraceWriter::emit`); the driver reports the hanging scenario as a violation.
+pub struct Watchdog(std::sync::Arc<std::sync::atomic::AtomicBool>);
+impl Watchdog {
+    pub fn arm(label: &str, secs: u64) -> Watchdog {
+        let done = std::sync::Arc::new(std::sync::atomic::AtomicBool::new(false));
+        let (d, label) = (done.clone(), label.to_string());
+        std::thread::spawn(move || {
+            let t0 = std::time::Instant::now();
+            while t0.elapsed().as_secs() < secs {
+                if d.load(std::sync::atomic::Ordering::SeqCst) {
+                    return;
+                }
+                std::thread::sleep(std::time::Duration::from_millis(50));
+            }
+            if !d.load(std::sync::atomic::Ordering::SeqCst) {
+                println!("{}", serde_json::json!({"hang": {"scenario": CURRENT_SCENARIO.load(std::sync::atomic::Ordering::SeqCst), "where": label, "after_s": secs}}));
+                std::process::exit(3);
+            }
+        });
+        Watchdog(done)
+    }
+}
+impl Drop for Watchdog {
+    fn drop(&mut self) {
+        self.0.store(true, std::sync::atomic::Ordering::SeqCst);
     }
 }
 
